@@ -120,6 +120,7 @@ class Body:
         self._defs = None
         self._calls = None
         self._omemo = {}
+        self._constlocals = None
 
     # ---------------- basic structure
     def term(self, b):
@@ -151,6 +152,8 @@ class Body:
             out = [t[1]]
         elif k == "switch":
             cv = const_int(t[1])
+            if cv is None:
+                cv = self._const_local(t[1])
             if cv is not None:
                 # constant condition (e.g. cfg!(debug_assertions)): only the taken edge exists
                 out = [t[3]]
@@ -193,6 +196,29 @@ class Body:
                 seen.add(x)
                 res.append(x)
         return res
+
+    def _const_local(self, op):
+        """value of a place operand whose local has a single definition `= const`"""
+        pl = op_place(op)
+        if pl is None or pl[1]:
+            return None
+        if self._constlocals is None:
+            cnt = {}
+            val = {}
+            for blk in self.blocks:
+                for s in blk["s"]:
+                    if s[0] in ("=", "sd"):
+                        l = s[1][0]
+                        cnt[l] = cnt.get(l, 0) + 1
+                        if s[0] == "=" and not s[1][1] and s[2][0] == "use":
+                            v = const_int(s[2][1])
+                            if v is not None:
+                                val[l] = v
+                t = blk["t"]
+                if t[0] == "call":
+                    cnt[t[3][0]] = cnt.get(t[3][0], 0) + 1
+            self._constlocals = {l: v for l, v in val.items() if cnt.get(l) == 1 and not (1 <= l <= self.argc)}
+        return self._constlocals.get(pl[0])
 
     @property
     def succ(self):
@@ -494,7 +520,8 @@ class Body:
                     fo = self._op_origin(c.fn, depth - 1, seen2)
                     val = ("icall", fo, tuple(self._op_origin(a, depth - 1, seen2) for a in c.args))
                 else:
-                    val = ("call", c.callee, tuple(self._op_origin(a, depth - 1, seen2) for a in c.args), c.decl)
+                    val = ("call", c.callee, tuple(self._op_origin(a, depth - 1, seen2) for a in c.args), c.decl,
+                           self.local_ty(l) if not proj else None)
                 if proj:
                     alts.append(("partial", self._projkey(proj), val))
                 else:
